@@ -355,4 +355,127 @@ theorem flatMap_congr' {β γ : Type} {l : List β} {f g : β → List γ} (h : 
   | cons a rest ih =>
     rw [List.flatMap_cons, List.flatMap_cons, h a (by simp), ih fun b hb => h b (by simp [hb])]
 
+/-! ### the loop of `_partitions_of_index_values` is the closed form -/
+
+/-- `routeItems` over an arbitrary increasing list of candidate partition numbers -/
+def routeOn (divs : List Nat) (ps : List Nat) (labels : List Nat) : List (Nat × List Nat) :=
+  (ps.map fun p => (p, labels.filter fun v => partitionOf divs v == p)).filter fun e => !e.2.isEmpty
+
+theorem routeItems_eq_routeOn (divs labels : List Nat) :
+    routeItems divs labels = routeOn divs (List.range (divs.length - 1)) labels := rfl
+
+theorem routeOn_cons (divs : List Nat) (q : Nat) (rest labels : List Nat) :
+    routeOn divs (q :: rest) labels =
+      if (labels.filter fun v => partitionOf divs v == q).isEmpty then routeOn divs rest labels
+      else (q, labels.filter fun v => partitionOf divs v == q) :: routeOn divs rest labels := by
+  unfold routeOn
+  rw [List.map_cons, List.filter_cons]
+  by_cases h : (labels.filter fun v => partitionOf divs v == q).isEmpty <;> simp [h]
+
+theorem routeOn_keys (divs : List Nat) (ps labels : List Nat) :
+    ∀ e ∈ routeOn divs ps labels, e.1 ∈ ps := by
+  intro e he
+  unfold routeOn at he
+  rw [List.mem_filter, List.mem_map] at he
+  obtain ⟨⟨p, hp, rfl⟩, _⟩ := he
+  exact hp
+
+/-- appending a label routed elsewhere changes nothing -/
+theorem routeOn_append_other (divs : List Nat) (ps seen : List Nat) (v : Nat) (h : partitionOf divs v ∉ ps) :
+    routeOn divs ps (seen ++ [v]) = routeOn divs ps seen := by
+  unfold routeOn
+  congr 1
+  apply List.map_congr_left
+  intro p hp
+  have : (partitionOf divs v == p) = false := by
+    rw [beq_eq_false_iff_ne]; intro heq; exact h (heq ▸ hp)
+  simp [List.filter_append, this]
+
+theorem addLabel_lt_all (p v : Nat) (l : List (Nat × List Nat)) (h : ∀ e ∈ l, p < e.1) :
+    addLabel p v l = (p, [v]) :: l := by
+  cases l with
+  | nil => rfl
+  | cons a rest =>
+    obtain ⟨q, ls⟩ := a
+    have : p < q := h (q, ls) (by simp)
+    simp [addLabel, this]
+
+/-- one step of the loop: `results[partition_of(v)].append(v)` -/
+theorem addLabel_routeOn (divs : List Nat) (v : Nat) :
+    ∀ (ps : List Nat), ps.Pairwise (· < ·) → partitionOf divs v ∈ ps → ∀ seen,
+      addLabel (partitionOf divs v) v (routeOn divs ps seen) = routeOn divs ps (seen ++ [v]) := by
+  intro ps
+  induction ps with
+  | nil => intro _ h; cases h
+  | cons q rest ih =>
+    intro hs hmem seen
+    rw [List.pairwise_cons] at hs
+    rw [routeOn_cons, routeOn_cons]
+    by_cases hq : partitionOf divs v = q
+    · -- the label belongs to the head candidate
+      have hnot : partitionOf divs v ∉ rest := by
+        intro hin; have := hs.1 _ hin; omega
+      rw [routeOn_append_other divs rest seen v hnot]
+      have hfil : (seen ++ [v]).filter (fun w => partitionOf divs w == q) =
+          seen.filter (fun w => partitionOf divs w == q) ++ [v] := by
+        simp [List.filter_append, hq]
+      rw [hfil]
+      have hne : (seen.filter (fun w => partitionOf divs w == q) ++ [v]).isEmpty = false := by simp
+      rw [hne]
+      simp only [Bool.false_eq_true, if_false]
+      by_cases hemp : (seen.filter fun w => partitionOf divs w == q).isEmpty
+      · rw [if_pos hemp]
+        have hnil : seen.filter (fun w => partitionOf divs w == q) = [] := by simpa using hemp
+        rw [hnil, List.nil_append, hq]
+        apply addLabel_lt_all
+        intro e he
+        exact hs.1 _ (routeOn_keys divs rest seen e he)
+      · rw [if_neg hemp, hq]
+        simp [addLabel]
+    · have hin : partitionOf divs v ∈ rest := by
+        rcases List.mem_cons.mp hmem with h | h
+        · exact absurd h hq
+        · exact h
+      have hlt : q < partitionOf divs v := hs.1 _ hin
+      have hfil : (seen ++ [v]).filter (fun w => partitionOf divs w == q) =
+          seen.filter (fun w => partitionOf divs w == q) := by
+        have : (partitionOf divs v == q) = false := by rw [beq_eq_false_iff_ne]; exact hq
+        simp [List.filter_append, this]
+      rw [hfil]
+      by_cases hemp : (seen.filter fun w => partitionOf divs w == q).isEmpty
+      · rw [if_pos hemp, if_pos hemp]
+        exact ih hs.2 hin seen
+      · rw [if_neg hemp, if_neg hemp]
+        have h1 : ¬ (partitionOf divs v < q) := by omega
+        simp only [addLabel, h1, hq, if_false]
+        rw [ih hs.2 hin seen]
+
+theorem routeOn_nil_labels (divs ps : List Nat) : routeOn divs ps [] = [] := by
+  unfold routeOn
+  rw [List.filter_eq_nil_iff]
+  intro e he
+  rw [List.mem_map] at he
+  obtain ⟨p, _, rfl⟩ := he
+  simp
+
+/-- **the loop of `_partitions_of_index_values` builds exactly the closed form** -/
+theorem routeLoop_eq_routeItems (divs labels : List Nat) (h2 : 2 ≤ divs.length) :
+    routeLoop divs labels = routeItems divs labels := by
+  have key : ∀ (labels seen : List Nat),
+      labels.foldl (fun acc v => addLabel (partitionOf divs v) v acc) (routeItems divs seen) =
+        routeItems divs (seen ++ labels) := by
+    intro labels
+    induction labels with
+    | nil => intro seen; simp
+    | cons v rest ih =>
+      intro seen
+      rw [List.foldl_cons, routeItems_eq_routeOn,
+        addLabel_routeOn divs v _ List.pairwise_lt_range
+          (List.mem_range.mpr (partitionOf_lt divs v h2)) seen,
+        ← routeItems_eq_routeOn, ih (seen ++ [v])]
+      simp
+  have := key labels []
+  rw [routeItems_eq_routeOn divs [], routeOn_nil_labels] at this
+  simpa [routeLoop] using this
+
 end Dask.LocList
